@@ -517,6 +517,7 @@ pub fn check(p: &dyn Property, tier: Tier, seed: u64) -> i32 {
     let mut cur: Vec<Option<(u64, Instant)>> = vec![None; nw];
     let mut finished = vec![false; nw];
     let mut killed = vec![false; nw];
+    let mut last_x: Vec<Option<String>> = vec![None; nw];
     for w in 0..nw {
         children.push(Some(spawn_worker(
             &exe, meta.id, tier, seed, w as u64, total, nw as u64, budget, w, tx.clone(),
@@ -592,6 +593,8 @@ pub fn check(p: &dyn Property, tier: Tier, seed: u64) -> i32 {
                             }
                         }
                     }
+                } else if let Some(rest) = l.strip_prefix("X ") {
+                    last_x[w] = Some(rest.to_string());
                 } else if l.starts_with("D ") {
                     agg.truncated = true;
                 } else if l == "F" {
@@ -625,9 +628,16 @@ pub fn check(p: &dyn Property, tier: Tier, seed: u64) -> i32 {
                     let code = status.and_then(|s| s.code());
                     agg.runs_done += 1;
                     let (sub, arts, again) = localise_crash(&exe, meta.id, tier, seed, idx);
+                    let x = last_x[w].take();
+                    let fp = match &x {
+                        Some(x) if x.starts_with("alloc ") => {
+                            format!("alloc:{}", x.split_whitespace().nth(2).unwrap_or("unknown"))
+                        }
+                        _ => format!("crash:{}", sig.map(|s| format!("signal{s}")).unwrap_or_else(|| format!("exit{}", code.unwrap_or(-1)))),
+                    };
                     agg.violations.push(json!({
-                        "idx": idx, "sub": sub,
-                        "fingerprint": format!("crash:{}", sig.map(|s| format!("signal{s}")).unwrap_or_else(|| format!("exit{}", code.unwrap_or(-1)))),
+                        "idx": idx, "sub": sub, "observed": x,
+                        "fingerprint": fp,
                         "clause": "G2 no process abort",
                         "detail": { "signal": sig, "exit_code": code, "reproduced_in_trace_mode": again },
                         "artefacts": arts,
